@@ -605,6 +605,18 @@ def negArm (i : NInfo) (lhs : M Unit) : M Unit := do
   | .ldouble => emit (ins0 "fchs")
   | _ => emit (ins1 "neg" rax)
 
+/-- `(w == 64) ? -1UL : (1UL << w) - 1` as an `unsigned long` -/
+def bitMask (w : Int) : Nat :=
+  if w == 64 then 18446744073709551615 else (2 ^ w.toNat + 18446744073709551615) % 18446744073709551616
+
+/-- the tail shared by the bit-field arms of `ND_MEMBER` and `ND_ASSIGN`: bring the field to the
+    top of %rax and shift it back down, extending by its signedness -/
+def bitfieldExtract (env : Env) (mem : Member) : M Unit := do
+  emit (ins2 "shl" (.i (64 - mem.bitWidth - mem.bitOffset)) rax)
+  let mty ← needTy "mem->ty" (env.ty? mem.ty)
+  if mty.isUnsigned || mty.kind == .bool then emit (ins2 "shr" (.i (64 - mem.bitWidth)) rax)
+  else emit (ins2 "sar" (.i (64 - mem.bitWidth)) rax)
+
 /-- `ND_MEMBER`: `gen_addr(node); load(node->ty);` + bit-field extraction -/
 def memberArm (i : NInfo) (addrLhs : M Unit) (mem? : Option Member) (env : Env) : M Unit := do
   addrMember addrLhs mem?
@@ -612,11 +624,7 @@ def memberArm (i : NInfo) (addrLhs : M Unit) (mem? : Option Member) (env : Env) 
   match mem? with
   | none => nullDeref "node->member"
   | some mem =>
-    if mem.isBitfield then do
-      emit (ins2 "shl" (.i (64 - mem.bitWidth - mem.bitOffset)) rax)
-      let mty ← needTy "mem->ty" (env.ty? mem.ty)
-      if mty.isUnsigned then emit (ins2 "shr" (.i (64 - mem.bitWidth)) rax)
-      else emit (ins2 "sar" (.i (64 - mem.bitWidth)) rax)
+    if mem.isBitfield then bitfieldExtract env mem
     else pure ()
 
 /-- `node->lhs->kind == ND_MEMBER && node->lhs->member->is_bitfield` -/
@@ -624,29 +632,31 @@ def bitfieldOf : Node → Option Member
   | .member _ _ (some m) => if m.isBitfield then some m else none
   | _ => none
 
-/-- `1L << n` -/
-def shl1 (n : Int) : Int := toI64 (2 ^ n.toNat)
-
 def assignArm (env : Env) (i : NInfo) (bf : Option Member) (addrLhs rhs : M Unit) : M Unit := do
   addrLhs
   push
   rhs
   match bf with
   | some mem => do
-    emit (ins2 "mov" rax (.r "%r8"))
     -- If the lhs is a bitfield, we need to read the current value
-    -- from memory and merge it with a new value.
+    -- from memory and merge it with a new value. The mask may be
+    -- wider than an immediate operand, so it goes through a register.
+    let mask := bitMask mem.bitWidth
     emit (ins2 "mov" rax rdi)
-    emit (ins2 "and" (.i (toI64 (shl1 mem.bitWidth - 1))) rdi)
+    emit (ins2 "mov" (.i (toI64 mask)) (.r "%r9"))
+    emit (ins2 "and" (.r "%r9") rdi)
     emit (ins2 "shl" (.i mem.bitOffset) rdi)
     emit (ins2 "mov" (.m0 "%rsp") rax)
     load (env.ty? mem.ty)
-    let mask := toI64 ((shl1 mem.bitWidth - 1) * 2 ^ mem.bitOffset.toNat)
-    emit (ins2 "mov" (.i (-mask - 1)) (.r "%r9"))         -- `~mask`
+    -- `~(mask << mem->bit_offset)` as an `unsigned long`, printed with %ld
+    let shifted := (mask * 2 ^ mem.bitOffset.toNat) % 18446744073709551616
+    emit (ins2 "mov" (.i (toI64 ((18446744073709551615 - shifted : Nat) : Int))) (.r "%r9"))
     emit (ins2 "and" (.r "%r9") rax)
     emit (ins2 "or" rdi rax)
     store i.ty
-    emit (ins2 "mov" (.r "%r8") rax)
+    -- The value of the assignment is the value the bit-field has
+    -- after it, not the unconverted right operand.
+    bitfieldExtract env mem
   | none => store i.ty
 
 def condArm (c : M Unit) (cty : Option Ty) (t e : M Unit) : M Unit := do
